@@ -544,12 +544,19 @@ NodePoll(s) ==
   /\ UNCHANGED <<S, cfg, js, marker, bfile, hs, processed, npid, nuser, ended, nfault, ncancel, nresub, stuck>>
 
 \* all jobs of the batch ended: the runner runs `jade try-submit-jobs` and waits for it
+\* (with --no-distributed-submitter -- S.dist = FALSE -- run-jobs exits without a round of its own: cli/run_jobs.py
+\* `if status == Status.GOOD and distributed_submitter`; the batch's rows wait in the node file until the user's next
+\* try-submit-jobs, which is then the only thing that moves the submission forward)
 NodeTry(s) ==
   /\ s \in B /\ P(s).pc = "ntry"
-  /\ npid' = npid + 1
-  /\ procs' = [procs EXCEPT ![s].pc = "nwaittry",
-                            ![TrySlot(s)] = [Idle EXCEPT !.kind = "try-submit-jobs", !.pc = "promote", !.pid = npid + 1, !.b = s]]
-  /\ Feed(<<"NodeTry", s, 0>>, <<EvProc(npid + 1, "try-submit-jobs", TRUE, s)>>)
+  /\ IF S.dist
+       THEN /\ npid' = npid + 1
+            /\ procs' = [procs EXCEPT ![s].pc = "nwaittry",
+                                      ![TrySlot(s)] = [Idle EXCEPT !.kind = "try-submit-jobs", !.pc = "promote", !.pid = npid + 1, !.b = s]]
+            /\ Feed(<<"NodeTry", s, 0>>, <<EvProc(npid + 1, "try-submit-jobs", TRUE, s)>>)
+       ELSE /\ UNCHANGED npid
+            /\ procs' = [procs EXCEPT ![s].pc = "nend"]
+            /\ Feed(<<"NodeNoTry", s, 0>>, <<>>)
   /\ UNCHANGED <<S, cfg, js, marker, bfile, hs, nodeFile, processed, jp, nuser, ended, nfault, ncancel, nresub, stuck>>
 
 
